@@ -17,7 +17,7 @@ CHECKS = {
  "C16": dict(engine="K1", category="exploration", design="§4 C16",
    technique="deterministic simulation with stream fault injection: CSV codec over scripted readers/writers (chunking, faults at every offset) for every source × destination kind and option set, the WriterTo source's two goroutines + pipe under the synctest bubble scheduler with goroutine accounting; encoding/csv reference and kind-to-kind agreement",
    text="Each run draws an option set (separator, comment, lazy quotes, trimmed space, fields per record, skipped records, CRLF, record reuse), a CSV text biased to the awkward (quotes, embedded separators/newlines, empty fields and lines, ragged rows, malformed quoting), a source and destination kind with pre-state (fresh, shorter, equal, longer, typed-nil) and, for stream-typed kinds, chunking and one injected read or write error; the io.WriterTo source runs inside a synctest bubble where its two errgroup goroutines and the pipe are scheduled by the tape and must both have finished in every ending. Oracles: delivered records == encoding/csv parse of the input minus the skipped records (writer-typed destinations re-parsed), all kinds agree on the same input, malformed input gives the parser's error and never partial success, injected faults surface, no panic, no aliasing between delivered records, no goroutine left. The kind × option × pre-state product is sampled (said plainly); the simulation-proper part is stream and goroutine behaviour. thorough adds the sweep of every read-error and sink-error offset for canonical texts.",
-   note="Skipped lines are read as skipped records (as the code and its tests do); text outputs are compared after a standard write and re-parse of the reference (encoding/csv does not round-trip every record); caller-supplied *csv.Reader/*csv.Writer objects are assumed default-constructed."),
+   note="Skipped lines are read as skipped records (as the code and its tests do); text outputs are compared after a standard write and re-parse of the reference (encoding/csv does not round-trip every record); caller-supplied *csv.Reader/*csv.Writer objects are default-constructed in the main scenarios; separator, comment character and fields-per-record set on the caller's own objects are checked by a separate relation (they must act like the same options given to the codec)."),
  "C09": dict(engine="K2", category="exploration", design="§4 C09",
    technique="deterministic simulation: seeded exclusive scheduler with race-detector-invisible hand-off over statement-level yield points in the middleware (-race build); solo-equality + own-token oracles, reference memo model over generated accessor programs, admitted race reports",
    text="N=2..6 requests with unique tokens in every position are served by one middleware.Context, through the full APIHandler or through tape-generated accessor programs (RouteInfo / ContentType / ResponseFormat / Authorize / BindAndValidate / ResetAuth with repetition, threading the returned request). Exactly one request runs at a time; preemption happens at instrumented statement boundaries chosen by the tape (PCT-style change points) and at every collaborator call; hand-over uses raw pipe system calls the race detector cannot see, so any conflicting access pair ordered only by the simulator is reported, deterministically per tape. Oracles: each request's observation record equals its solo execution on an identically built handler and carries only its own tokens; a reference memo model (same request value and result on a repeated accessor, no second consultation of authenticators after a principal, no second consumption of the body, principal and scopes gone after ResetAuth); no race report with both stacks inside go-openapi/runtime. Seeded sampling of schedules and programs; not proof.",
@@ -37,7 +37,7 @@ CHECKS = {
  "C06": dict(engine="SEQ", category="exploration", design="§4 C06",
    technique="deterministic simulation with stream fault injection: body presence signalled through net/http's wire parser over scripted body streams, the same wire request replayed on both binding entry points; reference admission model",
    text="Whether a request carries a body is decided by reading the stream; the simulator builds each request from wire bytes (Content-Length n / 0 / chunked / neither, parsed by net/http) and puts a scripted stream under it (empty chunked body, zero-length reads before the first byte, first byte together with EOF, error before or after the first byte). The same wire request is given, on fresh streams, to Context.BindValidRequest and Context.BindAndValidate for tape-generated consumes lists (concrete, type/*, */*, parameterised, empty) × default media type × registered consumers × Content-Type spellings × methods; a reference model decides admission, 415/400, the consumer identity and agreement of the two entry points. The header-grammar half is seeded input sampling (said plainly); the body-presence half is stream fault injection.",
-   note="Accept kept permissive; admitted-but-unregistered types and operations with no consumes entry and no default are not judged; parameters ignored on both sides of the comparison."),
+   note="Accept kept permissive; for an admitted type without a registered consumer only 'no other consumer decodes it' is judged; operations with no consumes entry and no default are not judged; parameters ignored on both sides of the comparison; whether an empty Content-Type value is 'absent' or 'unparsable' is left open."),
  "C02": dict(engine="SEQ", category="exploration", design="§4 C02",
    technique="deterministic simulation of evaluation order and collaborator outcomes: every consultation order of the schemes inside each alternative is enumerated per generated outcome vector by permuting RouteAuthenticator.Schemes; reference OR-of-ANDs model over the observed trace",
    text="The order in which the schemes of one alternative are consulted is a map-iteration order inside a dependency: fixed per process, random across processes, so unit tests see one order per run. Here each tape-generated (requirement structure, per-scheme outcome vector, authorizer behaviour, right-or-wrong rest of the request) is served once for every consultation order (all permutations, ≤36 combinations per run), through the full API handler and through the accessor sequence generated servers use; a reference model over the observed consultation trace decides admission, refusal status, principal/scopes/admitting alternative, and that neither the body stream nor a consumer nor the handler was touched on refusal. Seeded sampling of structures and vectors, enumeration of orders; not proof.",
